@@ -406,10 +406,18 @@ pub fn gen_c13(g: &mut Gen, tier: &str) {
         let (mut h, mut mi, mut s) = (g.rng.range(0, 23), g.rng.range(0, 59), g.rng.range(0, 59));
         let (mut yy, mut mm, mut d2) = (y, mo, dd);
         let (mut oh, mut om) = (g.rng.range(0, 23), g.rng.range(0, 59));
+        let neg_zone = g.rng.chance(1, 2); let is_z = g.rng.chance(1, 3);
+        // one time in four the reading is placed so that the UTC time of day is on or next to a day boundary (carry / borrow of a day)
+        if g.rng.chance(1, 4) {
+            let utc_tod = *g.rng.pick(&[0i128, 0, 1, 86_399, 86_398, 43_200]);
+            let off = if is_z { 0 } else { (oh * 3600 + om * 60) * if neg_zone { -1 } else { 1 } };
+            let local = (utc_tod + off).rem_euclid(86_400);
+            h = local / 3600; mi = local / 60 % 60; s = local % 60;
+        }
         if k % 3 == 0 { match g.rng.next() % 9 { 0 => mm = *g.rng.pick(&[0i128, 13, 99]), 1 => d2 = *g.rng.pick(&[0i128, 30, 31, 32, 99]), 2 => h = *g.rng.pick(&[24i128, 99]), 3 => mi = *g.rng.pick(&[60i128, 99]),
                                                  4 => s = *g.rng.pick(&[60i128, 61, 99]), 5 => oh = *g.rng.pick(&[24i128, 99]), 6 => om = *g.rng.pick(&[60i128, 99]), 7 => yy = 0, _ => { mm = 2; d2 = 29; } } }
         let frac = match g.rng.next() % 4 { 0 => String::new(), _ => { let len = 1 + (g.rng.next() % 40) as usize; format!(".{}", (0..len).map(|_| char::from(b'0' + (g.rng.next() % 10) as u8)).collect::<String>()) } };
-        let zone = if g.rng.chance(1, 3) { "Z".to_string() } else { format!("{}{:02}:{:02}", if g.rng.chance(1, 2) { '+' } else { '-' }, oh, om) };
+        let zone = if is_z { "Z".to_string() } else { format!("{}{:02}:{:02}", if neg_zone { '-' } else { '+' }, oh, om) };
         let st = format!("{:04}-{:02}-{:02}T{:02}:{:02}:{:02}{}{}", yy, mm, d2, h, mi, s, frac, zone);
         g.push(true, Input::with_strs("rfc_parse", vec![], vec![st]));
     }
